@@ -47,3 +47,22 @@ Definition json_typedef (t : typedef) : typedef :=
      td_meta := td_meta t |}.
 Definition json_model (m : model) : model :=
   {| m_schema := m_schema m; m_types := map json_typedef (m_types m); m_conds := m_conds m |}.
+
+(* C01: DSL -> model -> DSL -> model -> ... three rounds, through the JSON string API or directly *)
+Inductive rt_step := RStep (m : model) (text : option str).
+Inductive rt_fail := RFParse (round : nat) | RFPrint (round : nat) | RFNone.
+
+Fixpoint roundtrip (rounds : nat) (k : nat) (via_json : bool) (d : str) : list rt_step * rt_fail :=
+  match rounds with
+  | O => ([], RFNone)
+  | S r =>
+      match dsl_to_model d with
+      | DOk m _ _ =>
+          let m' := if via_json then json_model m else m in
+          match fst (print_model false m') with
+          | Ok t => let '(steps, f) := roundtrip r (S k) via_json t in (RStep m' (Some t) :: steps, f)
+          | _ => ([RStep m' None], RFPrint k)
+          end
+      | _ => ([], RFParse k)
+      end
+  end.
